@@ -17,6 +17,8 @@ import contextlib
 import io
 
 import casadi as ca
+import math
+
 import numpy as np
 
 from .gutil import maxabs
@@ -615,6 +617,17 @@ def check_algebra_arithmetic(res, B, xs, case, sub):
                     if got.shape != want_.shape or not _same(got, want_, 1e-13)[0]:
                         res.fail(site="%s.algebra_arithmetic" % B.name, clause="numeric_api:scalar_of_any_accepted_numeric_type_scales_by_its_value", cls="%s;%s" % (tag, side),
                                  detail=dict(x=p, scalar=repr(sc), side=side, got=got, want=want_), sub=sub, case=case)
+
+
+def generic_pair(ps):
+    """two members of moderate size with as few zero entries as possible (a thread check on two tiny or axis-aligned members compares results
+    that many wrong formulas share)"""
+    def score(p):
+        p = np.asarray(p, dtype=float)
+        n = float(np.linalg.norm(p))
+        return (int(0.05 < n < 50.0), int(np.count_nonzero(p)), -abs(math.log(max(n, 1e-300))))
+    ranked = sorted(range(len(ps)), key=lambda i: score(ps[i]), reverse=True)
+    return [ps[i] for i in ranked[:2]]
 
 
 QUICK_THREAD_GROUPS = ("SO3Quat", "SO3Mrp", "SO3EulerB321", "SE3Quat", "SE23Mrp", "SE23Quat", "SE2")
